@@ -228,3 +228,19 @@ Example layout_examples :
   marshal_path false (Some l) [(0, 700); (700, 500)] = Reframed /\
   marshal_path true (Some l) [(0, 700)] = AsPacked.
 Proof. vm_compute. repeat split; reflexivity. Qed.
+
+(** the decision of MarshalInitialPacketPayload, both directions *)
+Theorem reframed_iff planned layout frames :
+  marshal_path planned layout frames = Reframed <->
+  planned = false /\ 0 < total_len frames /\ contiguous frames = true /\
+  match layout with Some l => layout_fits l (total_len frames) = true | None => True end.
+Proof.
+  unfold marshal_path, one_range. split.
+  - destruct planned; [discriminate|].
+    destruct (0 <? total_len frames) eqn:Et; cbn [andb negb]; [|discriminate].
+    destruct (contiguous frames) eqn:Ec; cbn [negb]; [|discriminate].
+    apply Z.ltb_lt in Et. intros H. repeat split; try assumption.
+    destruct layout as [l|]; [|exact I]. destruct (layout_fits l (total_len frames)); [reflexivity | discriminate].
+  - intros [-> [Ht [Hc Hl]]]. apply Z.ltb_lt in Ht. rewrite Ht, Hc. cbn [andb negb].
+    destruct layout as [l|]; [rewrite Hl|]; reflexivity.
+Qed.
